@@ -417,9 +417,11 @@ def run(ck):
     dsc = prog.cls("Pistache::DynamicStreamBuf")
     bulk = sorted({m_.get("name") for m_ in dsc["methods"] if m_.get("virtual") and any("basic_streambuf" in o_ for o_ in (m_.get("overrides") or []))
                    and m_.get("name") in ("xsputn", "sync", "seekoff", "seekpos", "setbuf")})
+    bulk_msg = None
     if bulk:
-        raise AnalysisBroken("C05-R4: DynamicStreamBuf overrides %s: a put path besides overflow() whose refusal semantics (sticky or not) this rule "
-                             "does not model" % ", ".join(bulk))
+        # (raised at the end of this rule: what *can* be decided about the buffer is decided first, and a definite violation wins)
+        bulk_msg = ("C05-R4: DynamicStreamBuf overrides %s: a put path besides overflow() whose refusal semantics (sticky or not) this rule "
+                    "does not model" % ", ".join(bulk))
     rv = lib.single(prog, DSB + "reserve")
     rz = [e for e in rv.calls(lambda e: e.base_callee() == "std::vector::resize")]
     pname = rv.params[0]["name"]
@@ -478,6 +480,29 @@ def run(ck):
           "offsets are measured from data_.data()" if not pb else
           "pbase() is used as an origin at line %s, but the put area is re-seated at the old end on every growth and at the write position on every move: "
           "after a move the computed offset is wrong and later bytes overwrite earlier ones" % pb[0].get("l"))
+    # the write position survives a move: the moved-to buffer's put area begins at the source's put pointer (the storage itself is moved,
+    # so the pointer stays valid) -- re-seating it at the start of the storage forgets everything written and not yet flushed
+    nmv = 0
+    for fn in prog.funcs.values():
+        if fn.cls != "Pistache::DynamicStreamBuf" or not fn.params or "DynamicStreamBuf &&" not in (fn.params[0].get("type") or ""):
+            continue
+        if not (fn.base.endswith("::DynamicStreamBuf") or fn.base.endswith("::operator=")):
+            continue
+        src = fn.params[0]["name"]
+        sp = [e for e in fn.calls(lambda e: strip_tmpl(e.get("callee") or "") == "std::basic_streambuf::setp" and ((e.get("recv") or {}).get("t") or "this").strip() in ("this", ""))]
+        bump = [e for e in fn.calls(lambda e: strip_tmpl(e.get("callee") or "").rsplit("::", 1)[-1] in ("pbump", "advance") and
+                                    any("pptr" in (a.get("t") or "") for a in (e.get("args") or [])))]
+        if not sp:
+            continue
+        nmv += 1
+        keeps = any(re.sub(r"\s+", "", (e.get("args") or [{}])[0].get("t") or "") in ("%s.pptr()" % src,) for e in sp) or bool(bump)
+        ck.ob("C05-R4", "DynamicStreamBuf/%s/move-keeps-the-write-position" % ("move-assignment" if fn.base.endswith("operator=") else "move-constructor"), keeps, sp[0].loc, fn,
+              "the put area of the moved-to buffer starts at %s.pptr()" % src if keeps else
+              "after the move the put area starts at `%s`: what was written to the source and not yet flushed (status line, headers, pending chunks) is overwritten by the next write"
+              % ((sp[0].get("args") or [{}])[0].get("t") or "")[:50])
+    ck.require(nmv >= 2, "DynamicStreamBuf move operations that re-seat the put area: %d" % nmv)
+    if bulk_msg:
+        raise AnalysisBroken(bulk_msg)
 
     # ---------------- facts shared with C02 ----------------
     ck.borrow("C02", ["C02-R2"], "C05-R6",
